@@ -14,7 +14,8 @@
 (* licence that applies (own text, else first stand-alone of that name).   *)
 (***************************************************************************)
 EXTENDS Naturals, Sequences, FiniteSets, TLC, Json
-CONSTANTS PatLen, PathLen, Wide
+CONSTANTS PatLen, PathLen, Wide,
+          PatLen2, PathLen2   \* longer patterns over the small alphabet {a, b, *, ?} (several stars: backtracking) against all paths over {a, b}
 
 Lits == IF Wide THEN {"a", "b", ".", "/", "+", "(", "[", "^", "$"} ELSE {"a", ".", "/", "+", "["}
 PatTok == Lits \cup {"*", "?", "\\*", "\\?", "\\\\"}
@@ -31,6 +32,7 @@ Match(pat, s) ==
 
 SeqsUpTo(S, n) == UNION { [1..k -> S] : k \in 0..n }
 Paths == SeqsUpTo(PathCh, PathLen)
+Paths2 == SeqsUpTo({"a", "b"}, PathLen2)
 
 \* ---- documents
 PatPool == << <<"*">>, <<"a", "/", "*">>, <<"a", "/", "b">>, <<"?">>, <<"*", ".", "a">>, <<"\\*">>, <<"a", "/", "?">> >>
@@ -57,7 +59,9 @@ FPs == { FP(p, sl, l, inl) : p \in { <<i>> : i \in 1..Len(PatPool) } \cup { <<1,
                              sl \in BOOLEAN, l \in 1..2, inl \in BOOLEAN }
 Init ==
   \/ \E pat \in SeqsUpTo(PatTok, PatLen) :
-       case = [k |-> "glob", pat |-> pat, m |-> { p \in Paths : Match(pat, p) }]
+       case = [k |-> "glob", pat |-> pat, m |-> { p \in Paths : Match(pat, p) }, ps |-> Paths]
+  \/ \E n \in (PatLen + 1)..PatLen2 : \E pat \in [1..n -> {"a", "b", "*", "?"}] :
+       case = [k |-> "glob", pat |-> pat, m |-> { p \in Paths2 : Match(pat, p) }, ps |-> Paths2]
   \/ \E a \in FPs, b \in FPs, sl \in { <<>>, <<1>>, <<2, 1>>, <<1, 1>>, <<3, 1>>, <<3>> } :   \* (name 3 differs from name 1 by case only)
        LET fps == <<a, b>> IN
        case = [k |-> "doc", fps |-> fps, sl |-> sl,
@@ -72,6 +76,6 @@ Init ==
 GlobLaws == case.k = "glob" =>
   /\ (case.pat = <<"*">> => case.m = Paths)
   /\ (\A i \in 1..Len(case.pat) : case.pat[i] \notin {"*", "?"}) => Cardinality(case.m) <= 1
-Emit == PrintT(<<"REPLAY", ToJson(IF case.k = "glob" THEN [k |-> "glob", pat |-> case.pat, m |-> case.m, paths |-> Paths]
+Emit == PrintT(<<"REPLAY", ToJson(IF case.k = "glob" THEN [k |-> "glob", pat |-> case.pat, m |-> case.m, paths |-> case.ps]
                                    ELSE [k |-> "doc", fps |-> case.fps, sl |-> case.sl, ff |-> case.ff, lf |-> case.lf, pool |-> PatPool, dp |-> DocPaths])>>)
 =============================================================================
